@@ -1545,6 +1545,71 @@ run_case(Ctx& ctx)
               if (!in)
                 ctx.count("sentinel_bins_checked", static_cast<long>(len));
             }
+          // the sub-range clause holds for every ForwardProjectorByBin as well: forward_project(RelatedViewgrams, axial range,
+          // tangential range) fills exactly the requested bins (with what the whole projection gives there) and touches nothing else.
+          // Tangential pieces lying entirely at negative s, entirely at positive s and across 0 all occur.
+          {
+            shared_ptr<DataSymmetriesForViewSegmentNumbers> rsym_sptr(rsym->clone());
+            double fr_max = 0;
+            for (size_t b = 0; b < L.n; ++b)
+              fr_max = std::max(fr_max, static_cast<double>(std::fabs(fr[b])));
+            const double tol = 2e-5 * fr_max + 1e-6;
+            for (int q = 0; q < (small ? 2 : 3); ++q)
+              {
+                ViewSegmentNumbers vs(static_cast<int>(rng.range(L.v0, L.v1)), static_cast<int>(rng.range(L.s0, L.s1)));
+                rsym->find_basic_view_segment_numbers(vs);
+                const int seg = vs.segment_num();
+                std::vector<ViewSegmentNumbers> rel;
+                rsym->get_related_view_segment_numbers(rel, vs);
+                std::vector<std::pair<int, int>> axp, tgp;
+                split_range(rng, L.min_ax(seg), L.max_ax(seg), 2, axp);
+                split_range(rng, L.t0, L.t1, 3, tgp);
+                struct RTile
+                {
+                  int a0, a1, t0, t1;
+                };
+                std::vector<RTile> tiles;
+                for (auto& a : axp)
+                  for (auto& t : tgp)
+                    tiles.push_back(RTile{ a.first, a.second, t.first, t.second });
+                rng.shuffle(tiles);
+                rt.set_input(X);
+                for (const RTile& T : tiles)
+                  {
+                    // zero-filled viewgrams for every piece: the base class documents that the viewgrams are overwritten, the
+                    // on-the-fly projector ADDS to them; with zeros both readings give the same data (the statement fixes neither)
+                    stir::RelatedViewgrams<float> rv = ypd.get_empty_related_viewgrams(vs, rsym_sptr, false, 0);
+                    rv.fill(0.F);
+                    std::vector<float> got(L.n, SENT);
+                    std::vector<char> written(L.n, 0);
+                    rt.forward_project(rv, T.a0, T.a1, T.t0, T.t1);
+                    ctx.count("raytracing_sub_range_tiles");
+                    if (T.t1 < 0)
+                      ctx.count("raytracing_sub_range_tiles_at_negative_s_only");
+                    for (auto& r : rel)
+                      for (int ax = T.a0; ax <= T.a1; ++ax)
+                        for (int t = T.t0; t <= T.t1; ++t)
+                          written[L.idx(VG{ r.segment_num(), 0, r.view_num() }, ax, t)] = 1;
+                    for (auto it = rv.begin(); it != rv.end(); ++it)
+                      copy_vg(L, *it, got);
+                    for (auto& r : rel)
+                      {
+                        const VG vg{ r.segment_num(), 0, r.view_num() };
+                        const size_t o = L.vg_off(vg), len = L.vg_len(vg.seg);
+                        for (size_t b = o; b < o + len; ++b)
+                          if (written[b] ? !(std::fabs(static_cast<double>(got[b]) - fr[b]) <= tol) : got[b] != 0.F)
+                            {
+                              M.fail(written[b] ? "raytracing-forward-sub-range-differs-from-whole" : "raytracing-forward-sub-range-writes-outside-requested-range",
+                                     L.describe(b)
+                                         + vf::fmt(": %.9g after ForwardProjectorByBinUsingRayTracing::forward_project(RelatedViewgrams, ax %d..%d, tang %d..%d); "
+                                                   "whole projection %.9g (bins outside the sub-range were 0 before the call)",
+                                                   got[b], T.a0, T.a1, T.t0, T.t1, fr[b]));
+                              return;
+                            }
+                      }
+                  }
+              }
+          }
         }
     }
 
